@@ -376,6 +376,22 @@ func Pause(r *Run, site string) {
 	r.park(site, nil)
 }
 
+// PauseAs is Pause for a goroutine the harness did not start itself: the first time it parks it gets the
+// given name (instead of a number in order of arrival, which depends on how the Go scheduler happened to
+// order goroutines that became runnable together).
+func PauseAs(r *Run, name, site string) {
+	if r.stopped {
+		return
+	}
+	g := goid()
+	r.mu.Lock()
+	if _, ok := r.gname[g]; !ok {
+		r.gname[g] = name
+	}
+	r.mu.Unlock()
+	r.park(site, nil)
+}
+
 // Hash is the FNV-1a hash used for state fingerprints.
 func Hash(s string) uint64 { return hash64(s) }
 
